@@ -41,3 +41,6 @@ func (r *Rng) Pick(xs ...int) int { return xs[r.Intn(len(xs))] }
 
 // Fork derives an independent generator (for sharding by case index).
 func (r *Rng) Fork(i uint64) *Rng { return NewRng(r.s ^ (i+1)*0xD1B54A32D192ED03) }
+
+// PickS returns one of the given strings.
+func (r *Rng) PickS(xs ...string) string { return xs[r.Intn(len(xs))] }
